@@ -3,10 +3,13 @@ package c17
 import (
 	"fmt"
 	"regexp"
+	"sort"
 	"strconv"
 	"strings"
 
 	ds "github.com/sealdice/dicescript"
+
+	"verif/harness/vmx"
 )
 
 // ---------------------------------------------------------------------------
@@ -326,11 +329,10 @@ type recorder struct {
 	shared     *ds.VMValue
 	lastSet    ds.VMValue
 	sharedUsed bool
-	fallback   map[string]string // syn -> documented fallback text of the current match (Display), by operand text
 }
 
 func newRecorder() *recorder {
-	return &recorder{shared: ds.NewIntVal(0), fallback: map[string]string{}}
+	return &recorder{shared: ds.NewIntVal(0)}
 }
 
 func (r *recorder) reset() {
@@ -556,4 +558,82 @@ func (r *recorder) acted(res []*regexp.Regexp) bool {
 		}
 	}
 	return false
+}
+
+// ---------------------------------------------------------------------------
+// variables rendered without the source text of function and computed bodies
+// (the text differs between two spellings of one program; the values must not)
+
+func attrsNoText(vm *ds.Context) string {
+	if vm.Attrs == nil {
+		return "{}"
+	}
+	return mapNoText(vm.Attrs, 0)
+}
+
+func mapNoText(m *ds.ValueMap, depth int) string {
+	type kv struct {
+		k string
+		v *ds.VMValue
+	}
+	var items []kv
+	m.Range(func(k string, v *ds.VMValue) bool {
+		items = append(items, kv{k, v})
+		return true
+	})
+	sort.Slice(items, func(i, j int) bool { return items[i].k < items[j].k })
+	var sb strings.Builder
+	sb.WriteString("{")
+	for i, it := range items {
+		if i > 0 {
+			sb.WriteString(",")
+		}
+		sb.WriteString(strconv.Quote(it.k) + ":" + valNoText(it.v, depth+1))
+	}
+	sb.WriteString("}")
+	return sb.String()
+}
+
+func valNoText(v *ds.VMValue, depth int) string {
+	if v == nil {
+		return "<nil>"
+	}
+	if depth > 30 {
+		return "<deep>"
+	}
+	switch v.TypeId {
+	case ds.VMTypeArray:
+		ad, ok := v.ReadArray()
+		if !ok || ad == nil {
+			return "arr<bad>"
+		}
+		parts := make([]string, 0, len(ad.List))
+		for _, e := range ad.List {
+			parts = append(parts, valNoText(e, depth+1))
+		}
+		return "[" + strings.Join(parts, ",") + "]"
+	case ds.VMTypeDict:
+		dd, ok := v.ReadDictData()
+		if !ok || dd == nil || dd.Dict == nil {
+			return "dict<bad>"
+		}
+		return mapNoText(dd.Dict, depth+1)
+	case ds.VMTypeComputedValue:
+		cd, ok := v.ReadComputed()
+		if !ok || cd == nil {
+			return "computed<bad>"
+		}
+		out := "&(…)"
+		if cd.Attrs != nil && cd.Attrs.Length() > 0 {
+			out += mapNoText(cd.Attrs, depth+1)
+		}
+		return out
+	case ds.VMTypeFunction:
+		fd, ok := v.ReadFunctionData()
+		if !ok || fd == nil {
+			return "func<bad>"
+		}
+		return fmt.Sprintf("func %s(%s){…}", fd.Name, strings.Join(fd.Params, ","))
+	}
+	return vmx.Repr(v)
 }
